@@ -3,17 +3,30 @@ import corr
 from checks import alu_common
 
 PROP = "C03"
-MODULE = "Proofs.C03Exec"
+MODULE = "Proofs.C03All"
 NS = "Teakra.Alu."
 THEOREMS = [NS + t for t in ["addSub_result", "addSub_wf", "addSub_value", "addSub_carry", "addSub_overflow",
                              "wf_toNat_cases", "accFlags_spec", "saturate_spec"]] + \
            ["Teakra.Interp." + t for t in ["run_getAcc", "run_setAcc", "run_addSub", "run_satAndSetAccAndFlag",
                                            "satSetRegs_spec", "satSetRegs_frame", "add_Ab_Bx_run", "sub_Ab_Bx_run",
-                                           "addSubRegs_spec", "cmp_Ax_Bx_run", "cmp_keeps_accumulators"]]
+                                           "addSubRegs_spec", "cmp_Ax_Bx_run", "cmp_keeps_accumulators"]] + \
+           [NS + t for t in ["I40_cases", "I40_bounds", "I40_signExtend", "signExtend40_wf", "wf_of_toNat", "I40_neg",
+                             "I40_not", "not_wf"]] + \
+           ["Teakra.Interp." + t for t in [
+               # Proofs/C03b.lean: Moda family, AlmGeneric logic / test / compare forms, operand extension
+               "setAccOf_frame", "accOf_setAccOf", "accOf_setAccOf_ne", "addSubWrite_spec", "run_conditionPass",
+               "moda_fail", "run_setAccAndFlag", "moda_inc_run", "moda_dec_run", "moda_rnd_run", "moda_incdecrnd_spec",
+               "satSetRegs_fits", "moda_clr_run", "moda_clrr_run", "setFlagRegs_spec", "moda_clr_spec",
+               "moda_clrr_spec", "moda_copy_run", "moda_copy_spec", "moda_not_run", "moda_not_spec", "moda_neg_run",
+               "moda_neg_spec", "negCarryForAnyPattern_false", "moda_handlers", "alm_logic_run",
+               "signExtend40_getLsbD", "alm_logic_spec", "alm_tst0_run", "alm_tst1_run", "alm_cmp_run",
+               "cmpRegs_spec", "extendOperandForAlm_spec"]]
 TRUSTED = ["hand-written model lean/TeakraModel/Alu.lean (value parts of AddSub/SetAccFlag/SaturateAcc) and the handler "
            "transcriptions in lean/TeakraModel/Exec/*.lean, tied by the `alu` helper slice and the `interp` instruction slice"]
 ASSUMPTIONS = ["theorems are about the value-level helpers every ALU-family handler funnels through; the per-handler "
-               "composition (which operand, which extension) is tied to the C++ by the instruction-level correspondence"]
+               "composition (which operand, which extension) is tied to the C++ by the instruction-level correspondence",
+               "moda_neg_spec / moda_not_spec / moda_copy_spec assume the source accumulator is a sign-extended 40-bit "
+               "pattern (AccWF); negCarryForAnyPattern_false shows the neg carry claim fails without it"]
 PREFIXES = ["alm_", "alu_", "alb_", "or__", "and__", "add_", "sub_", "cmp_", "moda", "pacr1", "clr", "norm", "swap",
             "lim_", "movr_", "addhp", "min_", "max_"]
 
